@@ -396,14 +396,19 @@ impl Server {
         &self,
         params: TextDocumentPositionParams,
     ) -> Option<PrepareRenameResponse> {
+        let position = to_position(params.position);
+
         self.parser(&params.text_document.uri.to_key(&self.base_path))
-            .and_then(|parser| parser.link_at(to_position(params.position)))
-            .and_then(|link| {
-                link.key_range()
-                    .map(|range| PrepareRenameResponse::RangeWithPlaceholder {
-                        range: to_range(range),
-                        placeholder: link.url().unwrap_or("".to_string()),
-                    })
+            .and_then(|parser| {
+                parser.link_at(position).and_then(|link| {
+                    parser
+                        .url_range_at(position)
+                        .or_else(|| link.key_range())
+                        .map(|range| PrepareRenameResponse::RangeWithPlaceholder {
+                            range: to_range(range),
+                            placeholder: link.url().unwrap_or("".to_string()),
+                        })
+                })
             })
     }
 
